@@ -102,7 +102,8 @@ def run(ctx: Ctx):
         cases.append(diff.Case("gen", variants, ast=ast))
     # lexers with adjacent open-ended tokens: the positions reported by yields are what the optimiser must not move
     from . import c08
-    for ast in c08.open_token_shapes(rng, 8 if quick else 80) + c08.prefix_loop_shapes(rng, 4 if quick else 40):
+    from . import c01
+    for ast in c08.open_token_shapes(rng, 8 if quick else 80) + c08.prefix_loop_shapes(rng, 4 if quick else 40) + c01.loop_tail_shapes(rng, 8 if quick else 80, yields=True, family="yield-chain"):
         src = gen.prog_src(ast)
         variants = [("O0", src, list(ast.args) + ["-O0", "-findirect-start-ptr"])] + [("v", src, list(ast.args) + v + ["-findirect-start-ptr"]) for v in (["-O2"], ["-O3"], ["-O1", "-fshortcircuit-fallthroughs"])]
         cases.append(diff.Case("lexer", variants, ast=ast))
